@@ -88,6 +88,7 @@ def _classify_probe(ck, r, exe, tag):
     done = "@@DONE" in lines
     # '@@' lines except the private progress/done markers
     ck.consume("\n".join(l.replace("@@DISTINCT L2/", "@@DISTINCT L2/%s/" % tag, 1).replace("@@COUNT cases_L2_", "@@COUNT cases_L2_%s_" % tag, 1)
+                         .replace("@@COUNT placement_pairs_covered_max1024_L2_", "@@COUNT placement_pairs_covered_max1024_L2_%s_" % tag, 1)
                          for l in lines if l.startswith("@@") and not l.startswith(("@@P ", "@@DONE"))), context=tag)
     if r["timed_out"]:
         ck.note_inconclusive("%s: watchdog fired (last progress %s)" % (tag, last))
@@ -165,18 +166,25 @@ def run(ck, replay=None):
         nl = 4 if quick else 16
         for i in range(nl):
             jobs.append(("L1 large %s #%d" % (prof, i), dict(argv=[exe, "large", str(ck.seed * 1009 + i), str(2500 if quick else 40000)], timeout=3600), "large"))
+        # placement cross product: each operand independently flush-before / flush-after an inaccessible page / interior
+        for i in range(nsh):
+            jobs.append(("L1 placement %s shard %d/%d" % (prof, i, nsh),
+                         dict(argv=[exe, "xplace", str(ck.seed * 613 + i), str(60 if quick else 600), str(i), str(nsh), str(2 if quick else 6)], timeout=3600), "xplace"))
         ng = 2 if quick else 8
         for i in range(ng):
             jobs.append(("L1 guard %s #%d" % (prof, i), dict(argv=[exe, "guard", str(ck.seed * 31 + i), str(12000 if quick else 100000)], timeout=3600), "guard"))
     pj = [(tag, exe, _probe_job(exe, 60 if release else 300)) for tag, exe, release in probes]
     res = vlib.run_parallel([j for _, j, _ in jobs] + [j for _, _, j in pj])
     small_ok = 0
+    place_ok = 0
     for k, ((what, _, kind), r) in enumerate(zip(jobs, res[:len(jobs)])):
         r["out"] = _one_sample(r["out"], k)
         # exit 0 also after a reported fault (the handler exits 0 after writing its @@VIOL)
         ok = ck.consume_result(r, what)
         if ok and kind == "small" and "small_domain_shards_completed" in r["out"]:
             small_ok += 1
+        if ok and kind == "xplace" and "placement_shards_completed" in r["out"]:
+            place_ok += 1
     probe_ok = 0
     for (tag, exe, _), r in zip(pj, res[len(jobs):]):
         if _classify_probe(ck, r, exe, tag):
@@ -205,13 +213,27 @@ def run(ck, replay=None):
         "encodings; memcmp/bcmp 16x16 misalignments x equal + every first-difference position x both directions; "
         "layer 1 in debug and release, layer 2 in %d of 6 link-mode/profile variants x 2 routes" % probe_ok)
     ck.extra["probe_variants_completed"] = probe_ok
+    cells = [k for k in ck.distinct if k.startswith("L1-placement/")]
+    ck.extra["placement_cells_layer1"] = len(cells)
+    ck.extra["placement_cells_probes"] = len([k for k in ck.distinct if "/placement-px-" in k])
+    ck.extra["placement_domain"] = (
+        "two regions with an inaccessible page before and after each; operand 1 (dst/s1) and operand 2 (src/s2) independently in 32 "
+        "placements (ends 0..7 bytes before the inaccessible page, starts 0..7 bytes after it, interior at address %% 16 = 0..15): all "
+        "1024 pairs for every n in 0..=96 for memcpy, memmove, memcmp and bcmp (compare functions: equal + first difference in the byte "
+        "head / a middle word / the sub-word tail / the last byte), memset in the 32 placements; larger n around multiples of 8/16/32/64 "
+        "up to 6 KiB with every pair of placement classes sampled; layer 1 shards completed %d of %d, and the same in every probe variant "
+        "on the linked symbols by both routes" % (place_ok, 2 * nsh))
     ck.assume("word size 8 and WORD_COPY_THRESHOLD 16 (x86_64) as in tiny-start/src/symbols/mem.rs; the harness mirrors the private constants")
-    ck.assume("reads that stay inside the padded source buffer are not judged; a read or write that faults on a PROT_NONE page adjacent to the buffer is")
+    ck.assume("reads that stay inside mapped memory next to the buffer are not judged; any access that faults on the inaccessible page "
+              "placed 0..7 bytes beyond either end of either operand is a violation (detected by the fault itself, natively and in the "
+              "no-libc probes, not through Miri/sanitizers)")
     ck.assume("bcmp is judged on zero / non-zero only, memcmp on the sign; the int argument of memset is converted to unsigned char")
     ck.assume("Miri runs a sample (not the exhaustive domain); the no-libc probes cannot run under Miri or sanitizers")
     return ("each case = one call on buffers placed inside larger pattern-filled arenas; reference = volatile byte loops; the whole "
             "destination arena (red zones included), the source arena and the return pointer are compared. Small-n domain exhaustive "
             "(see exhaustive_domain), large n sampled up to 1 MiB around page/word/power-of-two sizes, guard-page placements "
-            "(buffers ending/starting at PROT_NONE pages) under a fault handler, a Miri sample, and the no-libc probe repeating the "
-            "small domain on the linked symbols. distinct = (function, n class, head/body-aligned|misaligned/tail path, direction) "
-            "cells per layer, guard-placement cells, probe (link mode, profile, route, function, n class, direction) cells")
+            "(buffers ending/starting at PROT_NONE pages) under a fault handler, the full cross product of operand placements "
+            "(see placement_domain), a Miri sample, and the no-libc probe repeating the small domain and the placement cross product "
+            "on the linked symbols. distinct = (function, n class, head/body-aligned|misaligned/tail path, direction) "
+            "cells per layer, guard-placement cells, placement cross-product cells (function, operand-1 class, operand-2 class, n class, first-difference class), "
+            "probe (link mode, profile, route, function, n class, direction | operand classes) cells")
